@@ -129,9 +129,74 @@ def cmd_run(args):
               open(os.path.join(VERIF, "out", "sensitivity-%s.json" % ("-".join(props) or "all")), "w"), indent=1)
     return 0 if missed == 0 else 1
 
+def cmd_benign(args):
+    """Applies every behaviour-preserving patch in /verif/benign to a scratch
+    copy and runs ALL property checks on it: every check must exit 0."""
+    root = os.path.join(VERIF, "benign")
+    props = [json.loads(l)["id"] for l in open(os.path.join(VERIF, "properties.jsonl"))]
+    bad = 0
+    only = [a for a in args if not a.startswith("-")]
+    for f in sorted(os.listdir(root)):
+        if not f.endswith(".diff") or (only and f[:-5] not in only):
+            continue
+        d = scratch()
+        try:
+            r = subprocess.run(["git", "-C", d, "apply", os.path.join(root, f)], env=ENV, stdout=subprocess.PIPE, stderr=subprocess.STDOUT, text=True)
+            if r.returncode != 0:
+                print("SKIPPED %s: patch does not apply: %s" % (f, r.stdout.strip()[:200])); continue
+            r = sh(["go", "build", "./..."], cwd=d, check=False)
+            if r.returncode != 0:
+                print("SKIPPED %s: does not compile\n%s" % (f, r.stdout[-500:])); continue
+            r = sh(["go", "test", "-count=1", "-timeout", "120s", "./..."], cwd=d, check=False)
+            if r.returncode != 0:
+                print("SKIPPED %s: fails the pinned suite (not benign)" % f); continue
+            def one(prop):
+                code, rules, und, out = vet(d, prop)
+                return prop, code, rules, und
+            with concurrent.futures.ThreadPoolExecutor(max_workers=6) as ex:
+                res = list(ex.map(one, props))
+            alarms = [(p, c, rl, u) for (p, c, rl, u) in res if c != 0]
+            if alarms:
+                bad += 1
+                print("FALSE-ALARM %s: %s" % (f, alarms))
+            else:
+                print("QUIET       %s (all %d checks exit 0)" % (f, len(props)))
+        finally:
+            drop(d)
+    return 1 if bad else 0
+
+def cmd_newbenign(name, rel):
+    hunks = sys.stdin.read().split("\n#####\n")
+    d = scratch()
+    try:
+        files = rel.split(",")
+        for h in hunks:
+            old, new = h.split("\n=====", 1)
+            new = new.lstrip("\n").rstrip("\n"); old = old.rstrip("\n")
+            done = False
+            for fl in files:
+                p = os.path.join(d, fl)
+                s = open(p).read()
+                if s.count(old) == 1:
+                    open(p, "w").write(s.replace(old, new)); done = True; break
+            if not done:
+                print("OLD text not found exactly once:\n" + old[:200]); return 1
+        sh(["gofmt", "-l", "."], cwd=d, check=False)
+        diff = sh(["git", "-C", d, "diff"]).stdout
+        os.makedirs(os.path.join(VERIF, "benign"), exist_ok=True)
+        open(os.path.join(VERIF, "benign", name + ".diff"), "w").write(diff)
+        print("stored benign/%s.diff" % name)
+        return 0
+    finally:
+        drop(d)
+
 if __name__ == "__main__":
     os.makedirs(os.path.join(VERIF, "out"), exist_ok=True)
     if sys.argv[1] == "new":
         sys.exit(cmd_new(*sys.argv[2:6]))
     elif sys.argv[1] == "run":
         sys.exit(cmd_run(sys.argv[2:]))
+    elif sys.argv[1] == "benign":
+        sys.exit(cmd_benign(sys.argv[2:]))
+    elif sys.argv[1] == "newbenign":
+        sys.exit(cmd_newbenign(sys.argv[2], sys.argv[3]))
